@@ -1,0 +1,74 @@
+//go:build verif
+
+package kafka
+
+import (
+	"github.com/ozontech/file.d/pipeline"
+	"github.com/twmb/franz-go/pkg/kgo"
+	"go.uber.org/zap"
+)
+
+// Verification-only exports for property C10 (build tag `verif`). Nothing here is compiled
+// into normal builds. They only expose unexported functions / fields.
+
+func VerifAssembleSourceID(index int, partition int32) pipeline.SourceID {
+	return assembleSourceID(index, partition)
+}
+
+func VerifDisassembleSourceID(sourceID pipeline.SourceID) (int, int32) {
+	return disassembleSourceID(sourceID)
+}
+
+func VerifAssembleOffset(message *kgo.Record) int64 { return assembleOffset(message) }
+
+func VerifDisassembleOffset(assembledOffset int64) kgo.EpochOffset {
+	return disassembleOffset(assembledOffset)
+}
+
+// VerifNewPlugin returns a plugin whose Commit works: topics configured and the given client
+// installed (Start, which needs a reachable broker, is not run).
+func VerifNewPlugin(topics []string, client *kgo.Client) *Plugin {
+	idByTopic := make(map[string]int, len(topics))
+	for i, topic := range topics {
+		idByTopic[topic] = i
+	}
+	return &Plugin{
+		config:    &Config{Topics: topics},
+		logger:    zap.NewNop().Sugar(),
+		client:    client,
+		idByTopic: idByTopic,
+	}
+}
+
+// VerifPConsumer drives the real per-partition consume loop (pconsumer.consume).
+type VerifPConsumer struct{ pc *pconsumer }
+
+func VerifNewPConsumer(topic string, partition int32, topicID int, controller pipeline.InputPluginController) *VerifPConsumer {
+	pc := &pconsumer{
+		topic:     topic,
+		partition: partition,
+		topicID:   topicID,
+
+		quit:    make(chan struct{}),
+		done:    make(chan struct{}),
+		fetches: make(chan kgo.FetchTopicPartition, 1),
+
+		controller: controller,
+		logger:     zap.NewNop(),
+	}
+	go pc.consume()
+	return &VerifPConsumer{pc: pc}
+}
+
+// Feed hands one fetch of this partition to the consume loop.
+func (v *VerifPConsumer) Feed(records []*kgo.Record) {
+	v.pc.fetches <- kgo.FetchTopicPartition{
+		Topic:          v.pc.topic,
+		FetchPartition: kgo.FetchPartition{Partition: v.pc.partition, Records: records},
+	}
+}
+
+func (v *VerifPConsumer) Stop() {
+	close(v.pc.quit)
+	<-v.pc.done
+}
